@@ -513,29 +513,42 @@ func (tb *TB) load(x *ssa.UnOp) *Term {
 	return mk("Deref", "", x, tb.Term(x.X))
 }
 
-// sharedEpoch finds an earlier load of the same field of the same base that
-// dominates x with no possible store to that field in between, and returns
-// its epoch (0 if none): the two loads then denote the same value.
+// sharedEpoch returns the epoch of the earliest load of the same field of the
+// same base that dominates x with no possible store to that field in
+// between (the loads then denote the same value); 0 if x is its own
+// representative and has no epoch yet. Independent of the order in which
+// terms are requested.
 func (tb *TB) sharedEpoch(x *ssa.UnOp, a *ssa.FieldAddr) int {
 	key := fieldKey(a)
 	baseKey := tb.baseTerm(a.X).Key()
-	for y, id := range tb.loadID {
-		ly, ok := y.(*ssa.UnOp)
-		if !ok || ly == x || ly.Parent() != x.Parent() {
-			continue
-		}
-		fy, ok := ly.X.(*ssa.FieldAddr)
-		if !ok || fieldKey(fy) != key || tb.baseTerm(fy.X).Key() != baseKey {
-			continue
-		}
-		if !dominatesInstr(ly, x) {
-			continue
-		}
-		if !tb.fieldWrittenBetween(ly, x, key) {
-			return id
+	rep := x
+	for _, b := range x.Parent().Blocks {
+		for _, in := range b.Instrs {
+			ly, ok := in.(*ssa.UnOp)
+			if !ok || ly == x || ly.Op != token.MUL {
+				continue
+			}
+			fy, ok := ly.X.(*ssa.FieldAddr)
+			if !ok || fieldKey(fy) != key || tb.baseTerm(fy.X).Key() != baseKey {
+				continue
+			}
+			if !dominatesInstr(ly, x) || tb.fieldWrittenBetween(ly, x, key) {
+				continue
+			}
+			if dominatesInstr(ly, rep) {
+				rep = ly
+			}
 		}
 	}
-	return 0
+	if rep == x {
+		return 0
+	}
+	if id, ok := tb.loadID[rep]; ok {
+		return id
+	}
+	tb.nextEpoch++
+	tb.loadID[rep] = tb.nextEpoch
+	return tb.nextEpoch
 }
 
 // fieldWrittenBetween: may a store to the field key happen on a path from
